@@ -85,14 +85,14 @@ V('h-silent-extract-local', H, 'float out_score = tag_out_scores(start_of_span, 
   ['C01', 'C09'], expect='silent', count=2)
 V('h-silent-rename-item', H, 'other', 'neighbour', ['C01', 'C02', 'C09', 'C12'], expect='silent', count=15)
 V('h-silent-gt-form', H, 'return left.score() < right.score();', 'return right.score() > left.score();', ['C01'], expect='silent')
-V('h-silent-log-threshold', H,
+V('h-log-threshold-only', H,
   'float threshold = config->use_beta ? std::exp(scored_cats[token_id].top().first) * config->beta : std::numeric_limits<float>::lowest();',
   'float threshold = config->use_beta ? scored_cats[token_id].top().first + std::log(config->beta) : std::numeric_limits<float>::lowest();\n#define VERIF_LOGFORM 1',
-  ['C01'], expect='silent')
-V('h-silent-log-threshold-c16', H,
+  ['C01'])      # the admission rule (R1.6, shared with C16) is part of C01 since round 4: a threshold in another domain than the keep-test
+V('h-log-threshold-only-c16', H,
   'float threshold = config->use_beta ? std::exp(scored_cats[token_id].top().first) * config->beta : std::numeric_limits<float>::lowest();\n        float out_score = tag_out_scores(token_id, token_id + 1) + dep_leaf_out_score;',
   'float threshold = config->use_beta ? scored_cats[token_id].top().first + std::log(config->beta) : std::numeric_limits<float>::lowest();\n        float out_score = tag_out_scores(token_id, token_id + 1) + dep_leaf_out_score;',
-  ['C01'], expect='silent')
+  ['C01'])
 V2('h-silent-log-form-both', [
    (H, 'float threshold = config->use_beta ? std::exp(scored_cats[token_id].top().first) * config->beta : std::numeric_limits<float>::lowest();',
        'float threshold = config->use_beta ? scored_cats[token_id].top().first + std::log(config->beta) : std::numeric_limits<float>::lowest();', 1),
